@@ -152,16 +152,29 @@ class Prop:
         """an API case as a table history: the VRPs (one cache), then one validate per route"""
         return [('ins', 0, n, mx, a) for n, mx, a in c['vrps']] + [('val', n, la, at) for n, la, at in c['routes']]
     def case_to_val(self, c):
+        if c.get('kind') == 'pol':
+            return [[[net_to_val(n), mx, a] for n, mx, a in c['vrps']], [[sl, k, list(l)] for sl, k, l in c['steps']],
+                    [[net_to_val(n), la, [[cd, list(b)] for cd, b in at]] for n, la, at in c['routes']]]
         if c.get('kind') == 'api':
             return [[[net_to_val(n), mx, a] for n, mx, a in c['vrps']],
                     [[net_to_val(n), la, [[cd, list(b)] for cd, b in at]] for n, la, at in c['routes']]]
         return [op_to_val(o) for o in c['ops']]
     def case_to_coq(self, c):
+        if c.get('kind') == 'pol':
+            ins = clist([op_to_coq(('ins', 0, n, mx, a)) for n, mx, a in c['vrps']])
+            sts = clist(['(%s, %s, %s)' % (cN(sl), cN(k), val.cbytes(l)) for sl, k, l in c['steps']])
+            rts = clist(['(%s, %s, %s)' % (net_to_coq(n), cN(la), clist([cpair(cN(cd), val.cbytes(b)) for cd, b in at])) for n, la, at in c['routes']])
+            return 'run_policy_case %s %s %s' % (ins, sts, rts)
         ops = self.api_ops(c) if c.get('kind') == 'api' else c['ops']
         return '%s %s' % (MODEL_ENTRY, clist([op_to_coq(o) for o in ops]))
     def case_to_json(self, c): return json.loads(json.dumps(c))
     def case_from_json(self, j):
         c = dict(j)
+        if j.get('kind') == 'pol':
+            c['vrps'] = [(tup(n), mx, a) for n, mx, a in j['vrps']]
+            c['steps'] = [(sl, k, list(l)) for sl, k, l in j['steps']]
+            c['routes'] = [(tup(n), la, [(cb[0], list(cb[1])) for cb in at]) for n, la, at in j['routes']]
+            return c
         if j.get('kind') == 'api':
             c['vrps'] = [(tup(n), mx, a) for n, mx, a in j['vrps']]
             c['routes'] = [(tup(n), la, [(cb[0], list(cb[1])) for cb in at]) for n, la, at in j['routes']]
@@ -491,7 +504,67 @@ class Prop:
             [((6, tuple([0x20, 1] + [0] * 14), 32), 65000, SQ(65001)), ((4, (10, 1, 0, 0), 16), 65000, SQ(65001)),
              ((4, (11, 1, 0, 0), 16), 65000, SQ(65001))])
         api('api_empty_table', [], [((4, (10, 1, 0, 0), 16), 65000, SQ(65001)), ((6, tuple([0] * 16), 0), 65000, [])])
+        cases += self.enumerated_policy_cases()
         return cases
+
+    def enumerated_policy_cases(self):
+        """(l) the hand-over of the table to policy evaluation: every kind of assignment history on the
+        global import, the global export and a per-peer export assignment; all three states x IPv4 / IPv6"""
+        K_ADD, K_SET, K_DEL, K_DELALL = 0, 1, 2, 3
+        SQ = lambda *l: [(2, aspath_bytes([(SEQ, list(l))]))]
+        v6 = lambda l, m: (6, tuple(l + [0] * (16 - len(l))), m)
+        vrps = [((4, (10, 0, 0, 0), 8), 24, 65001), (v6([0x20, 1, 0xd, 0xb8], 32), 48, 65001)]
+        routes = [((4, (10, 1, 0, 0), 16), 65000, SQ(65009, 65001)), ((4, (10, 2, 0, 0), 16), 65000, SQ(65002)), ((4, (11, 1, 0, 0), 16), 65000, SQ(65001)),
+                  (v6([0x20, 1, 0xd, 0xb8, 0, 1], 48), 65000, SQ(65001)), (v6([0x20, 1, 0xd, 0xb8, 0, 2], 48), 65000, [(2, aspath_bytes([(SEQ, [65001]), (1, [65001])]))]),
+                  (v6([0x20, 2], 32), 65000, SQ(65001))]
+        out = []
+        def add(cls, hist, peer_hist=None):
+            steps = []
+            for k, l in hist:
+                steps += [(0, k, l), (1, k, l)]
+            for k, l in (peer_hist if peer_hist is not None else hist):
+                if k != 1: steps.append((2, k, l))
+            out.append({'kind': 'pol', 'cls': cls, 'vrps': vrps, 'steps': steps, 'routes': routes})
+        for k in (0, 1, 2):
+            add('assignment_one_call', [(K_ADD, [k])])
+            add('assignment_one_call', [(K_ADD, [k, 3])])
+            add('assignment_one_call', [(K_ADD, [3, k])])
+            add('assignment_accumulated_rpki_first', [(K_ADD, [k]), (K_ADD, [3])])
+            add('assignment_accumulated_rpki_last', [(K_ADD, [3]), (K_ADD, [k])])
+            for perm in itertools.permutations([[k], [3], [4]]):
+                add('assignment_accumulated_three_calls', [(K_ADD, l) for l in perm])
+            add('assignment_set_after_add', [(K_ADD, [3]), (K_SET, [k])], [(K_ADD, [3]), (K_DELALL, []), (K_ADD, [k])])
+            add('assignment_add_after_set', [(K_SET, [k]), (K_ADD, [3]), (K_ADD, [4])], [(K_ADD, [k]), (K_ADD, [3]), (K_ADD, [4])])
+            add('assignment_set_without_rpki_after_rpki', [(K_SET, [k, 3]), (K_SET, [3])], [(K_ADD, [k, 3]), (K_DELALL, []), (K_ADD, [3])])
+            add('assignment_delete_rpki_policy', [(K_ADD, [k, 3]), (K_DEL, [k])])
+            add('assignment_delete_other_policy', [(K_ADD, [k, 3]), (K_DEL, [3])])
+            add('assignment_delete_other_after_accumulation', [(K_ADD, [k]), (K_ADD, [3]), (K_DEL, [3])])
+            add('assignment_delete_rpki_after_accumulation', [(K_ADD, [k]), (K_ADD, [3]), (K_DEL, [k]), (K_ADD, [4])])
+            add('assignment_delete_all_then_add', [(K_ADD, [k]), (K_DELALL, []), (K_ADD, [3]), (K_ADD, [(k + 1) % 3])])
+            add('assignment_failed_calls', [(K_DEL, [k]), (K_ADD, [k]), (K_ADD, [k]), (K_ADD, [3, k]), (K_ADD, [3])])
+        add('assignment_all_three_states', [(K_ADD, [0]), (K_ADD, [1]), (K_ADD, [2])])
+        add('assignment_all_three_states', [(K_ADD, [2, 1]), (K_ADD, [4]), (K_ADD, [0]), (K_DEL, [1])])
+        add('assignment_none', [])
+        add('assignment_without_rpki_policy', [(K_ADD, [3]), (K_ADD, [4])])
+        add('assignment_emptied', [(K_ADD, [1]), (K_DEL, [1])])
+        # per-peer assignment differs from the global one
+        out.append({'kind': 'pol', 'cls': 'peer_assignment_overrides_global', 'vrps': vrps, 'routes': routes,
+                    'steps': [(1, K_ADD, [1]), (2, K_ADD, [3]), (2, K_ADD, [2]), (0, K_ADD, [0])]})
+        out.append({'kind': 'pol', 'cls': 'peer_assignment_overrides_global', 'vrps': vrps, 'routes': routes,
+                    'steps': [(1, K_ADD, [3]), (1, K_ADD, [2]), (2, K_ADD, [1]), (2, K_ADD, [4]), (2, K_DEL, [4])]})
+        # the other family has no VRP (open finding C12-3 seen from the policy side)
+        out.append({'kind': 'pol', 'cls': 'policy_other_family_only', 'vrps': vrps[:1], 'routes': routes,
+                    'steps': [(0, K_ADD, [0]), (0, K_ADD, [3]), (1, K_ADD, [0, 2]), (2, K_ADD, [1])]})
+        return out
+
+    def policy_random_case(self, rng):
+        base = self.enumerated_policy_cases()[0]
+        steps = []
+        for _ in range(rng.randint(1, 7)):
+            sl = rng.choice([0, 1, 2])
+            k = rng.choice([0, 0, 0, 1, 2, 3]) if sl < 2 else rng.choice([0, 0, 0, 2, 3])
+            steps.append((sl, k, rng.sample([0, 1, 2, 3, 4], rng.randint(0 if k == 3 else 1, 3))))
+        return {'kind': 'pol', 'vrps': base['vrps'], 'routes': base['routes'], 'steps': steps}
 
     def api_random_case(self, rng):
         fam = rng.choice([4, 4, 6]); W = WIDTH[fam]
@@ -549,6 +622,7 @@ class Prop:
         for _ in range(nr): cases.append(self.real_case(rng, rng.choice([4, 4, 6])))
         for _ in range(nn): cases.append(self.history_case(rng, tier, noncanon=True))
         for _ in range(60 if tier == 'quick' else 400): cases.append(self.api_random_case(rng))
+        for _ in range(60 if tier == 'quick' else 600): cases.append(self.policy_random_case(rng))
         if tier == 'quick':
             cases += self.exhaustive_cases(4, '0000101', 2, 2)           # window straddling the first octet boundary
         else:
@@ -563,7 +637,8 @@ class Prop:
         """table histories through the crate harness; API cases through the daemon hook
         (TableManager::insert_route + collect_paths)"""
         ia = [k for k, c in enumerate(cases) if c.get('kind') == 'api']
-        it = [k for k, c in enumerate(cases) if c.get('kind') != 'api']
+        ip = [k for k, c in enumerate(cases) if c.get('kind') == 'pol']
+        it = [k for k, c in enumerate(cases) if c.get('kind') not in ('api', 'pol')]
         out = [None] * len(cases)
         if it:
             r, err = rustrun.crate_bin('C12', 'hx-rpki', '', [self.case_to_val(cases[k]) for k in it])
@@ -573,6 +648,10 @@ class Prop:
             r, err = rustrun.daemon_test('C12api', 'rpki::verif_hx::verif_rpki_api_cases', [self.case_to_val(cases[k]) for k in ia])
             if r is None: return None, err
             for k, o in zip(ia, r): out[k] = o
+        if ip:
+            r, err = rustrun.daemon_test('C12pol', 'event::verif_hx_rpki::verif_rpki_policy_cases', [self.case_to_val(cases[k]) for k in ip])
+            if r is None: return None, err
+            for k, o in zip(ip, r): out[k] = o
         return out, ''
 
     def run_model(self, cases, tier):
@@ -590,7 +669,7 @@ class Prop:
     def canon(self, case, obs):
         """list-valued observations are compared as sorted lists (the trie's key order and the
         order inside matched/unmatched lists are not part of the property)"""
-        if obs == [-1] or case.get('kind') == 'api': return obs
+        if obs == [-1] or case.get('kind') in ('api', 'pol'): return obs
         out = []
         for o, ob in zip(case['ops'], obs):
             if o[0] in ('val', 'valx'):
@@ -604,6 +683,8 @@ class Prop:
         """-> list of (op index, class tag, text)"""
         if c.get('kind') == 'api' and obs != [-1]:
             return self.api_failures(c, obs)
+        if c.get('kind') == 'pol' and obs != [-1]:
+            return self.pol_failures(c, obs)
         if obs == [-1]:
             if any(o[0] == 'val' and origin_rfc6811(o[2], o[3])[0] == 'malformed' for o in c['ops']):
                 return []        # assumption: AS_PATH bytes are well-formed
@@ -680,6 +761,37 @@ class Prop:
                 fails.append((k, 'api', 'route %d: the API lists %d matched / %d unmatched VRPs, RFC 6811 gives %d / %d' % (k, v[2], v[3] + v[4], len(matched), len(unm))))
         return fails
 
+    POLICY_NAMES = ['rpki not-found -> accept', 'rpki valid -> accept', 'rpki invalid -> accept', 'plain-med', 'plain-lp']
+
+    def pol_failures(self, c, obs):
+        """the validation state used by policy, through the daemon's own hand-over of the table:
+        TableManager::apply_import and PeerSession::handle_prefix_update, on assignments built by histories"""
+        fails = []
+        names = ['NotFound', 'Valid', 'Invalid']
+        slots, oks, robs = obs
+        asg = [sl[0][1] if sl else None for sl in slots]
+        use = [asg[0], asg[1], asg[2] if asg[2] is not None else asg[1]]
+        vset = {vrp_key(n[0], n[1], n[2], mx, a, 0) for n, mx, a in c['vrps']}
+        for k, ((route, local, attrs), ob) in enumerate(zip(c['routes'], robs)):
+            vr = [x for x in vset if x[0] == route[0]]
+            if any(not canonical((x[0], x[1], x[2])) for x in vr): continue
+            origin = origin_rfc6811(local, attrs)
+            if origin[0] == 'malformed': continue
+            st, matched, unm = validate_spec(vr, route, origin)
+            for j, what in enumerate(['import (TableManager::apply_import)', 'export to a peer under the global assignment', 'export to a peer with its own assignment']):
+                l = use[j]
+                want = 1 if l is None or any(p == st for p in l) else 0
+                if ob[j] != want:
+                    cls = 'family-empty' if (not vr and l is not None and 0 in l and st == 0) else 'policy-handover'
+                    fails.append((k, cls, 'route %d (%s/%d, RFC 6811 state %s): %s with policies %s %s the route, the validation state used by policy requires it to be %s' % (
+                        k, '.'.join(map(str, route[1])), route[2], names[st], what, [self.POLICY_NAMES[p] for p in l] if l is not None else None,
+                        'accepts' if ob[j] else 'rejects', 'accepted' if want else 'rejected')))
+        for j, sl in enumerate(slots):
+            if sl and any(p < 3 for p in sl[0][1]) and not sl[0][0]:
+                fails.append((j, 'policy-handover', '%s assignment %s lists an rpki policy but needs_rpki is false: its evaluation is not handed the RPKI table' % (
+                    ['global import', 'global export', 'per-peer export'][j], [self.POLICY_NAMES[p] for p in sl[0][1]])))
+        return fails
+
     KNOWN_CLASS = {'C12-3': 'family-empty'}
 
     def oracle(self, c, obs):
@@ -701,7 +813,7 @@ class Prop:
         """relation of every validated route to the VRPs installed at that point"""
         T = SpecTable()
         rel = []
-        for o in (self.api_ops(c) if c.get('kind') == 'api' else c['ops']):
+        for o in (self.api_ops(c) if c.get('kind') in ('api', 'pol') else c['ops']):
             T.apply(o)
             if o[0] == 'val':
                 r = o[1]
@@ -716,6 +828,9 @@ class Prop:
         return rel
 
     def nontrivial_key(self, c, obs):
+        if c.get('kind') == 'pol':
+            if obs == [-1]: return ('panic', 'pol')
+            return ('pol', tuple((sl, k, tuple(l)) for sl, k, l in c['steps']), json.dumps(obs[2]))
         if c.get('kind') == 'api':
             if obs == [-1]: return ('panic', 'api')
             rel = self.relations(c)
@@ -735,6 +850,14 @@ class Prop:
     def classify(self, c, obs):
         tags = ['kind_' + c.get('kind', '?')]
         if c.get('cls'): tags.append('enum_' + c['cls'])
+        if c.get('kind') == 'pol':
+            tags.append('policy_handover')
+            tags.append('assignment_steps_%d' % min(4, max(len([1 for st in c['steps'] if st[0] == j]) for j in range(3))))
+            if obs != [-1]:
+                for j, sl in enumerate(obs[0]):
+                    if sl: tags.append('slot%d_needs_rpki_%d' % (j, sl[0][0]))
+                if 0 in obs[1]: tags.append('assignment_call_error')
+            return sorted(set(tags))
         if c.get('kind') == 'api':
             tags.append('api_annotation')
             for ob in (obs if obs != [-1] else []):
@@ -759,7 +882,7 @@ class Prop:
 
 Prop.required_theorems = [
     'validate_code_eq_rfc6811_outside_known', 'validate_code_eq_rfc6811_refuted', 'validate_none_iff_known',
-    'validate_matched_exact', 'noncovering_vrps_irrelevant', 'policy_condition_eq_rfc6811_outside_known', 'policy_condition_known', 'origin_code_eq_rfc6811',
+    'validate_matched_exact', 'noncovering_vrps_irrelevant', 'policy_condition_eq_rfc6811_outside_known', 'policy_condition_known', 'handover_iff_rpki_policy', 'assignment_accepts_iff_state_outside_known', 'origin_code_eq_rfc6811',
     'rfc6811_state_characterised', 'mask_bytes_eq_prefix_bits',
     'vrp_table_refines_set', 'vrp_history_refines_set', 'iter_lists_installed',
     'validate_pre_refuted_covering', 'validate_pre_refuted_more_specific', 'validate_pre_refuted_as_set',
